@@ -17,6 +17,7 @@ namespace
     {
         std::vector<std::string> kscript, iscript;   // "" or "v<k>"
         int cycles{0};
+        std::vector<std::string> bscript2;            // second value input (two-input branches)
         std::vector<Sample> samples;                 // every cycle, switch output (or alone output)
     };
     Run *g = nullptr;
@@ -278,10 +279,125 @@ namespace
         return out;
     }
 
+    // ---- two-input branches: the first input may never have ticked (not required) or be passive; the second holds a value ------------------
+    struct TsWriter2   // third scripted writer (reads g->bscript2)
+    {
+        static constexpr auto name = "c12_ts_writer2";
+        static constexpr bool schedule_on_start = true;
+        static void eval(NodeScheduler sched, DateTime now, Out<TS<Int>> out)
+        {
+            const long c = rel(now);
+            const auto &sc = g->bscript2;
+            if (c < static_cast<long>(sc.size())) { const std::string &op = sc[static_cast<std::size_t>(c)]; if (!op.empty()) out.set(Int{std::stol(op.substr(1))}); }
+            if (c + 1 < static_cast<long>(sc.size())) sched.schedule(MIN_TD);
+        }
+    };
+    struct NPairU   // first input not required to be valid
+    {
+        static constexpr auto name = "c12_pair_unchecked";
+        static void eval(In<"a", TS<Int>, InputActivity::Active, InputValidity::Unchecked> a, In<"b", TS<Int>> b, Out<TS<Int>> out) { out.set(Int{(a.valid() ? a.value() : Int{0}) * 1000 + b.value()}); }
+    };
+    struct NPairP   // first input passive
+    {
+        static constexpr auto name = "c12_pair_passive";
+        static void eval(In<"a", TS<Int>, InputActivity::Passive, InputValidity::Unchecked> a, In<"b", TS<Int>> b, Out<TS<Int>> out) { out.set(Int{(a.valid() ? a.value() : Int{0}) * 1000 + b.value() + 500000}); }
+    };
+    struct BPairU { static constexpr auto name = "c12_b_pair_u"; static Port<TS<Int>> compose(Wiring &w, Port<TS<Int>> a, Port<TS<Int>> b) { return wire<NPairU>(w, a, b); } };
+    struct BPairP { static constexpr auto name = "c12_b_pair_p"; static Port<TS<Int>> compose(Wiring &w, Port<TS<Int>> a, Port<TS<Int>> b) { return wire<NPairP>(w, a, b); } };
+
+    // desc: pair|<kscript>|<a script>|<b script>     key 1 -> BPairU, key 2 -> BPairP
+    Outcome run_pair_desc(const std::string &desc)
+    {
+        Outcome out;
+        auto parts = split(desc, '|');
+        Run run;
+        run.kscript = split(parts.at(1), ';');
+        run.iscript = split(parts.at(2), ';');
+        run.bscript2 = split(parts.at(3), ';');
+        run.cycles = static_cast<int>(run.kscript.size());
+        const long end = run.cycles + 6;
+        std::string exc;
+        g = &run;
+        try
+        {
+            Wiring w;
+            auto key = wire<TsWriter>(w, Int{0});
+            auto a = wire<TsWriter>(w, Int{1});
+            auto b = wire<TsWriter2>(w);
+            stdlib::SwitchCases cases;
+            cases.cases.push_back({Value{Int{1}}, fn<BPairU>()});
+            cases.cases.push_back({Value{Int{2}}, fn<BPairP>()});
+            Port<TS<Int>> o = wire<stdlib::switch_>(w, key, cases, a, b).template as<TS<Int>>();
+            wire<EveryProbe<TS<Int>>>(w, o);
+            GraphBuilder gb = std::move(w).finish();
+            GraphExecutorBuilder eb;
+            eb.graph_builder(std::move(gb)).start_time(MIN_ST).end_time(MIN_ST + TimeDelta{end});
+            auto ex = eb.make_executor();
+            ex.view().run();
+        }
+        catch (const std::exception &e) { exc = e.what(); }
+        g = nullptr;
+        if (!exc.empty()) { out.violation = "run threw: " + exc; return out; }
+        // lives and the alone runs: at its first cycle the branch is handed the held values of both inputs
+        struct Life { long start; long key; std::vector<std::string> a, b; };
+        std::vector<Life> lives;
+        std::string held_a, held_b;
+        long active_key = LONG_MIN;
+        for (long c = 0; c < run.cycles; ++c)
+        {
+            const std::string &ta = run.iscript[static_cast<std::size_t>(c)], &tb = run.bscript2[static_cast<std::size_t>(c)];
+            if (!ta.empty()) held_a = ta;
+            if (!tb.empty()) held_b = tb;
+            const std::string &k = run.kscript[static_cast<std::size_t>(c)];
+            bool fresh = false;
+            if (!k.empty()) { const long kv = std::stol(k.substr(1)); if (kv != active_key) { active_key = kv; fresh = true; lives.push_back(Life{c, kv, {}, {}}); } }
+            if (lives.empty()) continue;
+            Life &l = lives.back();
+            l.a.push_back(fresh ? held_a : ta);
+            l.b.push_back(fresh ? held_b : tb);
+        }
+        std::map<long, std::string> want;
+        for (std::size_t li = 0; li < lives.size(); ++li)
+        {
+            const Life &l = lives[li];
+            const long life_end = li + 1 < lives.size() ? lives[li + 1].start : end;
+            Run r; r.iscript = l.a; r.bscript2 = l.b; r.cycles = static_cast<int>(l.a.size());
+            Run *saved = g; g = &r;
+            try
+            {
+                Wiring w;
+                auto a = wire<TsWriter>(w, Int{1});
+                auto b = wire<TsWriter2>(w);
+                Port<TS<Int>> o = l.key == 1 ? wire<NPairU>(w, a, b) : wire<NPairP>(w, a, b);
+                wire<EveryProbe<TS<Int>>>(w, o);
+                GraphBuilder gb = std::move(w).finish();
+                GraphExecutorBuilder eb;
+                eb.graph_builder(std::move(gb)).start_time(MIN_ST).end_time(MIN_ST + TimeDelta{life_end - l.start});
+                auto ex = eb.make_executor();
+                ex.view().run();
+            }
+            catch (...) { g = saved; throw; }
+            g = saved;
+            for (auto &sm : r.samples) if (sm.modified && sm.valid) want[l.start + sm.t] = sm.value;
+        }
+        std::map<long, std::string> got;
+        std::ostringstream sig;
+        for (auto &sm : run.samples) { if (sm.modified && sm.valid) { got[sm.t] = sm.value; ++out.ticks; } sig << (sm.valid ? sm.value : "-") << ","; }
+        out.sig = "pair#" + sig.str();
+        out.nontrivial = lives.size() >= 2;
+        if (got != want)
+        {
+            auto show = [](const std::map<long, std::string> &m) { std::string o; for (auto &[c, v] : m) o += " t" + std::to_string(c) + "=" + v; return o.empty() ? std::string{" (none)"} : o; };
+            out.violation = "switch over two inputs: output ticks" + show(got) + " but the selected branches alone (each handed the held values of both inputs when selected) give" + show(want);
+        }
+        return out;
+    }
+
     // desc: <table><d|-><r|->|<kscript>|<iscript>
     Outcome run_desc(const std::string &desc)
     {
         if (desc.rfind("set", 0) == 0) return run_set_desc(desc);
+        if (desc.rfind("pair|", 0) == 0) return run_pair_desc(desc);
         Outcome out;
         auto parts = split(desc, '|');
         const std::string cfg = parts.at(0);
@@ -450,6 +566,27 @@ void verif_enumerate(verif::Ctx &ctx)
             return out;
         };
         const auto ks2 = all_scripts(skeys), is2 = all_scripts(sops);
+        {
+            // two-input branches: key x first input x second input histories
+            const auto ks3 = all_scripts({"", "v1", "v2"}), as3 = all_scripts({"", "v7"}), bs3 = all_scripts({"", "v3", "v4"});
+            for (auto &ks : ks3) for (auto &as : as3) for (auto &bs : bs3)
+            {
+                if (!ctx.next_is_mine()) continue;
+                const std::string desc = "pair|" + ks + "|" + as + "|" + bs;
+                ++ctx.evaluations; ++ctx.traces;
+                Outcome o = run_desc(desc);
+                ctx.transitions += o.ticks;
+                ctx.state(o.sig);
+                if (o.nontrivial) ctx.nontriv(desc);
+                ctx.count("cases_pair");
+                if (o.violation)
+                {
+                    Outcome o2 = run_desc(desc);
+                    if (!o2.violation || *o2.violation != *o.violation) throw verif::HarnessError("case not reproducible: " + desc);
+                    ctx.violation(desc, *o.violation, "pair: " + o.violation->substr(0, 44));
+                }
+            }
+        }
         for (const char *cfg : {"set-", "setr"})
             for (auto &ks : ks2) for (auto &is : is2)
             {
